@@ -1,17 +1,20 @@
 PARTS = {0: 'fraction<int8_t>, fraction<int16_t>, CTAD from float', 1: 'fraction<int32_t>, CTAD from double',
-         2: 'fraction<int64_t>', 3: 'fraction<__int128>, CTAD from long double'}
+         2: 'fraction<int64_t>', 3: 'fraction<__int128>, CTAD from long double',
+         4: 'no sanitizer (plain release build): CTAD from float, fraction<int32_t> from double, fraction<int8_t> from float, quick lattice'}
 
 
 def plan(tier):
     t = 1 if tier == 'thorough' else 0
-    shards = {0: 8, 1: 3, 2: 4, 3: 8} if t else {0: 2, 1: 1, 2: 1, 3: 2}
+    shards = {0: 8, 1: 3, 2: 4, 3: 8, 4: 2} if t else {0: 2, 1: 1, 2: 1, 3: 2, 4: 2}
+    # watchdog: 200 ms (quick, a few dozen hangs), 100 ms (thorough, several thousand hangs)
+    ticks = 2 if t else 4
     units = []
     # the heavy parts (0: hangs in release mode, 3: 128-bit reference arithmetic) are listed first
     for part in (0, 3, 2, 1):
         for comp in ('g++', 'clang++'):
             for mode in ('ndebug', 'debug'):
                 u = dict(name='%s-%s-p%d' % (comp, mode, part), src='C17.cpp', compiler=comp, mode=mode,
-                         defines=['VF_TIER=%d' % t, 'VF_PART=%d' % part], shards=shards[part], hang_ticks=4)
+                         defines=['VF_TIER=%d' % t, 'VF_PART=%d' % part], shards=shards[part], hang_ticks=ticks)
                 if mode == 'ndebug':
                     # a failed CNL_ASSERT is __builtin_unreachable() in release mode; with UBSan's
                     # "unreachable" check on, every such case would stop there with a trap and the
@@ -19,6 +22,10 @@ def plan(tier):
                     # The assertion failures themselves are observed in the debug units.
                     u['flags'] = ['-fno-sanitize=unreachable']
                 units.append(u)
+    # what a plain release build does (undefined behaviour is not trapped, so non-termination shows as such)
+    for comp in ('g++', 'clang++'):
+        units.append(dict(name='%s-ndebug-nosan-p4' % comp, src='C17.cpp', compiler=comp, mode='ndebug', sanitize='none',
+                          defines=['VF_TIER=%d' % t, 'VF_PART=4'], shards=shards[4], hang_ticks=4))
     M, Mu = (12, 8) if t else (8, 5)
     return dict(
         units=units,
@@ -26,7 +33,8 @@ def plan(tier):
              'T in {int8,int16,int32,int64,__int128} x F in {float,double,long double}, and the three deduction-guide forms '
              'cnl::fraction(x) (float->int32, double->int64, long double->__int128), each in release (NDEBUG) and CNL_DEBUG mode, g++ and clang++. '
              'Inputs per program, both signs, restricted by the exact precondition |x| <= max(T): every binary exponent 2^-(D+8) .. 2^D '
-             '(D = digits of T) x all values of the top %d mantissa bits%s; the same lattice at %d bits moved one ulp of F up and down; '
+             '(D = digits of T) x all values of the top %d mantissa bits%s; the same lattice at %d bits moved one ulp of F up and down '
+             '(make<T,F>, which the constructor delegates to, and the sanitizer-free units: 8 and 5 bits in both tiers); '
              'F(k), F(k) +- {1/8,1/4,1/2,3/4} and both neighbours in F for every k of the boundary lattice B0(T); '
              'k/2^j for 22 odd k and j = 1..D+8; k/10^j (k < 1000, j <= 6) and p/q (p,q <= 40) computed by division in F; unit-test constants; '
              'the six values of F at and below F(max(T)), max(T)/2; neighbours of 1/2, 1, 2; +0, -0; 2^-(D+9), 3*2^-(D+20), 1e-30, '
@@ -36,17 +44,19 @@ def plan(tier):
         bound=dict(component_types=['int8', 'int16', 'int32', 'int64', '__int128'], floating_types=['float', 'double', 'long double'],
                    mantissa_bits=M, mantissa_bits_int8_float_ctor=16 if t else M, mantissa_bits_ulp_lattice=Mu,
                    exponent_range='2^-(D+8) .. 2^D', long_double_inputs_not_below='2^-1000 (capacity of the reference arithmetic)',
-                   hang_watchdog_ms=200, hang_confirmation_s=5 if t else 2, parts=PARTS),
+                   hang_watchdog_ms=100 if t else 200, hang_confirmation_s=5 if t else 2, parts=PARTS),
         exhaustive_over='the stated input lattice of every program (not the whole floating-point types)',
         assumptions=[
-            'a hang is "no return within 200 ms of CPU time"; the first hang of every program is re-run with a %d s watchdog and '
-            'reported as slow_not_hang if it returns then' % (5 if t else 2),
+            'a hang is "no return within %d ms of CPU time"; the first hang of every program is re-run with a %d s watchdog and '
+            'reported as slow_not_hang if it returns then' % (100 if t else 200, 5 if t else 2),
             '"the sign of the input": the numerator must not have the opposite sign; a zero result for a non-zero input is judged by the '
             'error bound only (|x| < 2^(4-D) may legitimately become 0) and is counted as outcome class ok_rounds_to_zero',
             '"components within the range of the component type" is not observable on the stored components; out-of-range intermediates '
             'are observed as UBSan traps (signed overflow, float-to-integer conversion out of range) and CNL_ASSERT failures',
-            'release-mode units are built with -fno-sanitize=unreachable: a failed CNL_ASSERT (== __builtin_unreachable() under NDEBUG) does '
-            'not stop the case there, so that what a release build does next is observed; every other UBSan check stays in trap mode',
+            'release-mode UBSan units are built with -fno-sanitize=unreachable: a failed CNL_ASSERT (== __builtin_unreachable() under NDEBUG) does '
+            'not stop the case there, so that what a release build does next is observed; every other UBSan check stays in trap mode. '
+            'Two further release-mode units (config .../none) are built without any sanitizer for three programs on the quick lattice: '
+            'there undefined behaviour is not intercepted and the observable failures are wrong results and non-termination',
             'labels on violation classes are exact predicates on the input: position (zero / below_1_over_max / below_1 / ge_1 / at_max), '
             'representability (integer / exact_ratio / inexact) and, for inexact inputs, whether one of the two adjacent fractions with '
             'components in T converts back to x in F (nbr_converts / nbr_none)'],
